@@ -26,3 +26,4 @@ open Neutrino.BM
 #print axioms Neutrino.BM.C01_trans_invertLowestOne
 #print axioms Neutrino.BM.C01_trans_getAncestorHeight
 #print axioms Neutrino.BM.C01_trans_getAncestorHeight_nonpos
+#print axioms Neutrino.BM.C01_trans_areHeadersConnected
